@@ -73,3 +73,6 @@ M("c16-receive-checkpoint-after-consume", "C16", BUF, RC, "            del self.
 # from seeded change C16/f (round 3)
 M("c16-exactly-chunk-bypasses-buffer", "C16", BUF, RX, "            self._buffer.extend(chunk)", "            if len(chunk) == nbytes:\n                return bytes(chunk)\n\n            self._buffer.extend(chunk)", ["R16-b"])
 N("c16-n-exactly-bytes-first", "C16", BUF, RX, "                retval = self._buffer[:nbytes]\n                del self._buffer[:nbytes]\n                return bytes(retval)", "                retval = bytes(self._buffer[:nbytes])\n                del self._buffer[:nbytes]\n                return retval")
+
+# from seeded change C16/h (round 4)
+M("c16-receive-default-codec-strips-signature", "C16", TXT, "TextReceiveStream", "    encoding: InitVar[str] = \"utf-8\"\n    errors: InitVar[str] = \"strict\"\n    _decoder", "    encoding: InitVar[str] = \"utf-8-sig\"\n    errors: InitVar[str] = \"strict\"\n    _decoder", ["R16-e"])
